@@ -38,11 +38,12 @@ POOL = [
     ("H2", {}, "H2"),
     ("H2*", {}, "H2*"),
     ("c-C3H2", {}, "c-C3H2"),
+    ("l-C3H2", {}, "l-C3H2"),
     ("CO", {}, "CO"),
     ("He", {}, "He"),
     ("He+", {}, "He+"),
 ]
-QUICK_POOL = [p for p in POOL if p[0] in ('H', 'H+', 'H-', 'H--', 'e-', 'E', 'E-', 'oH2', 'OH2', '#H', 'GH', '#1H', '#2H', 'GRAIN0', 'H2', 'H2*', 'c-C3H2', 'CO')]
+QUICK_POOL = [p for p in POOL if p[0] in ('H', 'H+', 'H-', 'H--', 'e-', 'E', 'E-', 'oH2', 'OH2', '#H', 'GH', '#1H', '#2H', 'GRAIN0', 'H2', 'H2*', 'c-C3H2', 'l-C3H2', 'CO')]
 
 # upper-case UCLCHEM convention: element list in capitals, a replacement table that restores the usual symbols
 UCL_ELEMENTS = ["E", "H", "HE", "C", "O"]
